@@ -208,7 +208,7 @@ CLAIMS = {
         design='4/C16'),
     'C17': dict(
         technique='Coq: fault = program prefix + handler events, proved safe for all inputs, fault points and handler sequences; verified monitor on fault traces; single fault at every gated call with rerun',
-        text=('PROOF (Coq, closed): C17_fault_in_add_loose / _pack / _clean / _delete / _repack / _add_to_pack / _import (FaultProofs.fault_anywhere: '
+        text=('PROOF (Coq, closed): C17_fault_anywhere_in_any_history (any history, any fault point, any handler sequence: Inv), C17_fault_in_add_loose / _pack / _clean / _delete / _repack / _add_to_pack / _import (FaultProofs.fault_anywhere: '
               'for ALL inputs, an I/O error after ANY number of primitives of the operation followed by ANY sequence of handler events - handles '
               'closed or flushed (their buffers reach the file), sandbox file removed, session rolled back - leaves Inv and every previously stored '
               'object readable byte for byte), C17_handlers_only_append, C17_fault_trace_monitor, C17_no_wrong_bytes, C17_rollback_is_noop. '
